@@ -358,7 +358,14 @@ class C10(F.PropCheck):
                 ok_times = 500 <= st['aot'] <= 590000 and 500 <= st['act'] <= 590000
                 good = ok_times and st['pos'] == 100 and not st['up_on'] and not st['down_on'] and not (st['flags'] & FLAG_FAILED)
                 failed = (st['flags'] & FLAG_FAILED) and not st['up_on'] and not st['down_on'] and st['aot'] == 0 and st['act'] == 0 and not known(st['pos'])
-                if st['step'] > 0: good = good and False      # restarted at once: the result was not accepted as a finished calibration
+                # A new calibration running at the end of the same callback: either the module aborted the running one itself (abort path of
+                # set_relay, e.g. the end-stop time-out of move_position on a stale known position: times 0/0 and position unknown) and the
+                # pending task re-requested it - "aborted and re-requested", judged when the new one ends - or step 3 completed (position
+                # fully open, opening time stored) and its result was not usable: that is neither outcome.
+                restarted = st['step'] > 0
+                aborted = restarted and st['aot'] == 0 and st['act'] == 0 and not known(st['pos'])
+                if restarted: good = False
+                if aborted: started = t; prev_step = st['step']; continue
                 if not (good or failed):
                     v.append('auto-calibration ended at %d us with times %d/%d, position %d, flags %#x, outputs %d%d%s: neither the success nor the failure outcome' %
                              (t, st['aot'], st['act'], st['pos'], st['flags'], st['up_on'], st['down_on'], ', and a new calibration started at once' if st['step'] > 0 else ''))
